@@ -10,7 +10,7 @@
    mrij <pstar> <p> <z> | mris <pstar> | d p z ; …                    -> p/q|nan
    tankcap cyl <d> <maxl> <level> | tankcap curve <maxl> <level> x:y,…-> p/q|nan
    wsa d e | pop avg R | pump q hs he eff rstep price                 -> …
-   netcost <default|T=k:v,…;P=…;V=…;U=…> | item ; …                   -> p/q
+   netcost <default|T=k:v,…;P=…;V=…;U=…> | item ; …                   -> p/q   (default = the DOCUMENTED tables)
    ghg <default|k:v,…> | d l ; …                                      -> p/q
    pmax A B C eff                                                     -> float bits (decimal UInt64) -/
 import WntrModel.Model.Pattern
@@ -91,7 +91,7 @@ def floatToRat (x : Float) : Rat :=
   if neg then -mag else mag
 
 def parseTables (s : String) : Option CostTables :=
-  if s == "default" then some { tank := Gen.tankCost, pipe := Gen.pipeCost, prv := Gen.prvCost, pump := Gen.pumpCost }
+  if s == "default" then some { tank := Gen.tankCostOracle, pipe := Gen.pipeCostOracle, prv := Gen.prvCostOracle, pump := Gen.pumpCostOracle }
   else do
     let parts := s.splitOn ";"
     let get (tag : String) : Option (List (Rat × Rat)) :=
@@ -169,7 +169,7 @@ def handle (line : String) : String :=
     let items ← parseList parseItem (secs.getD 1 "")
     some (showRat (annualNetworkCost piDouble t items))
   | ["ghg", tab] => do
-    let t ← if tab == "default" then some Gen.pipeGhg else parsePairs tab
+    let t ← if tab == "default" then some Gen.pipeGhgOracle else parsePairs tab
     some (showRat (annualGhg t (← parseList rats2 (secs.getD 1 ""))))
   | ["pmax", a, b, c, eff] => do
     let f := pmaxFloat (ratToFloat (← parseRat a)) (ratToFloat (← parseRat b)) (ratToFloat (← parseRat c)) (ratToFloat (← parseRat eff))
